@@ -29,17 +29,23 @@ pub assume_specification<T> [std::collections::BinaryHeap::<T>::new] () -> (r: B
     ensures heap_view(r) == Multiset::<T>::empty();
 pub assume_specification<T: Ord, A: std::alloc::Allocator> [std::collections::BinaryHeap::<T, A>::push] (h: &mut BinaryHeap<T, A>, item: T)
     ensures heap_view(*final(h)) == heap_view(*old(h)).insert(item);
+// heap_top: the item at the root of the heap; peek() looks at it and pop() removes it (both act on data[0])
+pub uninterp spec fn heap_top<T, A: std::alloc::Allocator>(h: BinaryHeap<T, A>) -> Option<T>;
+pub open spec fn heap_top_ok<T, A: std::alloc::Allocator>(h: BinaryHeap<T, A>) -> bool {
+    match heap_top(h) {
+        Some(x) => heap_view(h).count(x) > 0 && forall|y: T| #[trigger] heap_view(h).count(y) > 0 ==> ord_rel::<T>(y, x),
+        None => heap_view(h) == Multiset::<T>::empty(),
+    }
+}
 pub assume_specification<'a, T, A: std::alloc::Allocator> [std::collections::BinaryHeap::<T, A>::peek] (h: &'a BinaryHeap<T, A>) -> (r: Option<&'a T>)
-    ensures match r {
-        Some(x) => heap_view(*h).count(*x) > 0 && forall|y: T| #[trigger] heap_view(*h).count(y) > 0 ==> ord_rel::<T>(y, *x),
-        None => heap_view(*h) == Multiset::<T>::empty(),
-    };
+    ensures heap_top_ok(*h),
+        match r { Some(x) => heap_top(*h) == Some(*x), None => heap_top(*h) is None };
 pub assume_specification<T: Ord, A: std::alloc::Allocator> [std::collections::BinaryHeap::<T, A>::pop] (h: &mut BinaryHeap<T, A>) -> (r: Option<T>)
-    ensures match r {
-        Some(x) => heap_view(*old(h)).count(x) > 0 && (forall|y: T| #[trigger] heap_view(*old(h)).count(y) > 0 ==> ord_rel::<T>(y, x))
-            && heap_view(*final(h)) == heap_view(*old(h)).remove(x),
-        None => heap_view(*old(h)) == Multiset::<T>::empty() && heap_view(*final(h)) == heap_view(*old(h)),
-    };
+    ensures heap_top_ok(*old(h)), r == heap_top(*old(h)),
+        match r {
+            Some(x) => heap_view(*final(h)) == heap_view(*old(h)).remove(x),
+            None => heap_view(*final(h)) == heap_view(*old(h)),
+        };
 pub assume_specification<T, A: std::alloc::Allocator> [std::collections::BinaryHeap::<T, A>::clear] (h: &mut BinaryHeap<T, A>)
     ensures heap_view(*final(h)) == Multiset::<T>::empty();
 pub assume_specification<T, A: std::alloc::Allocator> [std::collections::BinaryHeap::<T, A>::is_empty] (h: &BinaryHeap<T, A>) -> (r: bool)
@@ -86,6 +92,27 @@ pub struct ResponseHandler<T> { h: Box<dyn FnOnce(T) -> GneissResult<()> + Send 
 //@enum gneiss-mqtt/src/protocol.rs ProtocolEnqueuePosition
 //@enum gneiss-mqtt/src/protocol.rs OperationResponse
 //@struct gneiss-mqtt/src/protocol.rs OperationTimeoutRecord
-//@struct gneiss-mqtt/src/protocol.rs ProtocolState drop=encoder,decoder,outbound_alias_resolver,inbound_alias_resolver
+
+//@struct gneiss-mqtt/src/alias.rs OutboundAliasResolution
+//@struct gneiss-mqtt/src/validate.rs OutboundValidationContext
+//@struct gneiss-mqtt/src/validate.rs InboundValidationContext
+//@struct gneiss-mqtt/src/encode.rs EncodingContext noderive=Default
+//@enum gneiss-mqtt/src/encode.rs EncodeResult
+
+// ---- trusted shim: the Encoder (encode.rs, fn-pointer step list: outside Verus) is opaque here.
+// Assumed contract of encode(): it only ever appends to the destination buffer.  The byte-level
+// behaviour of the real Encoder is examined by E-K (bounded) under C02.
+#[verifier::external_body]
+pub struct Encoder { steps: VecDeque<u8> }
+impl Encoder {
+    #[verifier::external_body]
+    pub fn reset(&mut self, packet: &MqttPacket, context: &EncodingContext) -> (r: GneissResult<()>) { unimplemented!() }
+    #[verifier::external_body]
+    pub fn encode(&mut self, packet: &MqttPacket, dest: &mut Vec<u8>) -> (r: GneissResult<EncodeResult>)
+        ensures old(dest)@.is_prefix_of(final(dest)@),
+    { unimplemented!() }
+}
+
+//@struct gneiss-mqtt/src/protocol.rs ProtocolState drop=decoder,outbound_alias_resolver,inbound_alias_resolver
 
 } // verus!
